@@ -195,13 +195,24 @@ def eval_bool(e, assign) -> bool:
     return v if pol else not v
 
 
-def path_condition(cfg, nid, keep=None, rename=None, expand=None):
+def ifexp_guards(node, stop=None):
+    """(test, polarity) of the conditional expressions `node` sits in, up to the statement `stop` (or its own statement):
+    the guards a statement-level path condition does not see (`x.dropna() if flag else x`)"""
+    out, child, p = [], node, getattr(node, "_parent", None)
+    while p is not None and child is not stop and not isinstance(child, ast.stmt):
+        if isinstance(p, ast.IfExp) and child is not p.test:
+            out.append((p.test, child is p.body))
+        child, p = p, getattr(p, "_parent", None)
+    return out
+
+
+def path_condition(cfg, nid, keep=None, rename=None, expand=None, extra=None):
     """Canonical form of the condition under which node `nid` is reached:
     (sorted atom names, frozenset of satisfying assignments as bit tuples),
     over the atoms accepted by `keep(text, node)`; other atoms are projected
     out existentially.  Two guards written differently (if-form vs early
     exit, De Morgan variants, `is not None` vs `not ... is None`) compare equal."""
-    tests = cfg.guards(nid)
+    tests = list(cfg.guards(nid)) + list(extra or ())   # `extra`: (test, polarity) of enclosing conditional expressions
     if expand is not None:
         # atoms are read through the local definitions (`passed` -> `check_result.check_passed`): independent of local names
         tests = [(expand.expand(t), pol) for t, pol in tests]
